@@ -12,6 +12,8 @@
       computeEstimatedSizeAndTotalLinks = dataFieldSerializedSize(mode, mtime) + sum linkSerializedSize
       NewBasicDirectoryFromNode (reload of the serialised block): mode := FSNode.Mode(),
                       mtime := FSNode.ModTime(), links in serialised (sorted) order
+      Defect switch [fl] (finding C17-1, see [data_part]): false = the code today,
+                      true = Data field sized as stored (fixes/C17-1.candidate.patch)
     NOT transcribed but translated from the Go source by go2coq on every run:
       [Gen_C17.varintLen], [Gen_C17.linkSerializedSize] (ipld/unixfs/io) and
       [Gen_C17f.ModePermsToUnixPerms]/[UnixPermsToModePerms] (files).
@@ -76,16 +78,28 @@ Definition link_size (e : entry) : Z := linkSerializedSize (e_name e) (blen (e_c
 
 Definition sum_links (l : list entry) : Z := fold_right (fun e a => link_size e + a) 0 l.
 
+(** Defect switch [fl] (finding C17-1).
+    [fl = false], the code today: computeEstimatedSizeAndTotalLinks sizes the Data
+    field from the directory's (mode, mtime) with dataFieldSerializedSize.  After
+    NewBasicDirectoryFromNode these come from FSNode.Mode()/ModTime(), and a
+    stored mode field without permission bits reads as mode 0: its two bytes are
+    in the block but not in the estimate.
+    [fl = true], the repair: the Data field is sized as it is stored in the node,
+    tag(1) + len_varint + len(node.Data()). *)
+Definition data_part (fl : bool) (d : dir) : Z :=
+  if fl then 1 + varintLen (blen (ndata d)) + blen (ndata d)
+  else data_field_size (dmode d) (dtime d).
+
 (** computeEstimatedSizeAndTotalLinks (block mode) *)
-Definition recompute (d : dir) : dir :=
-  {| links := links d; est := data_field_size (dmode d) (dtime d) + sum_links (links d);
+Definition recompute (fl : bool) (d : dir) : dir :=
+  {| links := links d; est := data_part fl d + sum_links (links d);
      total := blen (links d); dmode := dmode d; dtime := dtime d; ndata := ndata d |}.
 
 (** NewBasicDirectory(WithStat(mode, mtime)): SetStat keeps mode > 0 and a non-zero time *)
-Definition new_dir (mode : Z) (t : gtime) : dir :=
+Definition new_dir (fl : bool) (mode : Z) (t : gtime) : dir :=
   let m := if 0 <? mode then mode else 0 in
   let tm := if is_zero t then zero_time else t in
-  recompute {| links := []; est := 0; total := 0; dmode := m; dtime := tm;
+  recompute fl {| links := []; est := 0; total := 0; dmode := m; dtime := tm;
                ndata := dir_data_bytes m tm |}.
 
 Fixpoint zlist_eqb (a b : list Z) : bool :=
@@ -105,14 +119,14 @@ Definition drop_name (name : list Z) (l : list entry) : list entry :=
   filter (fun e => negb (zlist_eqb (e_name e) name)) l.
 
 (** updateEstimatedSize's tail: a negative estimate is recomputed from the node *)
-Definition fix_negative (d : dir) : dir := if est d <? 0 then recompute d else d.
+Definition fix_negative (fl : bool) (d : dir) : dir := if est d <? 0 then recompute fl d else d.
 
 (** RemoveChild: (directory, found) *)
-Definition remove_child (name : list Z) (d : dir) : dir * bool :=
+Definition remove_child (fl : bool) (name : list Z) (d : dir) : dir * bool :=
   match find_link name (links d) with
   | None => (d, false)
   | Some old =>
-      let d1 := fix_negative
+      let d1 := fix_negative fl
                   {| links := links d;
                      est := est d - linkSerializedSize name (blen (e_cid old)) (e_tsize old);
                      total := total d; dmode := dmode d; dtime := dtime d; ndata := ndata d |} in
@@ -123,10 +137,10 @@ Definition remove_child (name : list Z) (d : dir) : dir * bool :=
 (** AddChild (maxLinks = 0: no limit).  The old entry is removed first; then
     ProtoNode.AddRawLink refuses a link size above MaxInt64 (checkLink) and the
     call fails with the old entry gone. *)
-Definition add_child (e : entry) (d : dir) : dir * bool :=
-  let d1 := fst (remove_child (e_name e) d) in
+Definition add_child (fl : bool) (e : entry) (d : dir) : dir * bool :=
+  let d1 := fst (remove_child fl (e_name e) d) in
   if two63 <=? e_tsize e then (d1, false) else
-  let d2 := fix_negative
+  let d2 := fix_negative fl
               {| links := links d1 ++ [e]; est := est d1 + link_size e; total := total d1;
                  dmode := dmode d1; dtime := dtime d1; ndata := ndata d1 |} in
   ({| links := links d2; est := est d2; total := total d2 + 1; dmode := dmode d2; dtime := dtime d2;
@@ -154,20 +168,14 @@ Definition time_of (m : data) : gtime :=
       end
   end.
 
-(** Defect switch [counts_zero_mode]: with [false] (the code today) the reloaded
-    directory forgets a stored mode field whose permission bits are all zero —
-    Mode() reads 0 and dataFieldSerializedSize(0, ..) omits the two bytes that
-    are in the block; with [true] the estimate counts the field that is there. *)
-Definition reload (counts_zero_mode : bool) (d : dir) : option dir :=
+(** NewBasicDirectoryFromNode: mode and mtime are read back from the node's
+    UnixFS data, the links are in serialised order, everything is recomputed *)
+Definition reload (fl : bool) (d : dir) : option dir :=
   match decode_data (ndata d) with
   | None => None
   | Some m =>
-      let md := mode_of_dir m in
-      let md := if counts_zero_mode && (md =? 0) &&
-                   match d_mode m with Some _ => true | None => false end
-                then ModeDir else md in
-      Some (recompute {| links := sort_links (links d); est := 0; total := 0;
-                         dmode := md; dtime := time_of m; ndata := ndata d |})
+      Some (recompute fl {| links := sort_links (links d); est := 0; total := 0;
+                            dmode := mode_of_dir m; dtime := time_of m; ndata := ndata d |})
   end.
 
 (** ---------- operations ---------- *)
@@ -179,8 +187,8 @@ Inductive op :=
 (** one step: new directory and what the call reports (true = nil error) *)
 Definition step (fl : bool) (d : dir) (o : op) : option (dir * bool) :=
   match o with
-  | OAdd e => Some (add_child e d)
-  | ORemove n => Some (remove_child n d)
+  | OAdd e => Some (add_child fl e d)
+  | ORemove n => Some (remove_child fl n d)
   | OReload => match reload fl d with Some d' => Some (d', true) | None => None end
   end.
 
@@ -258,10 +266,10 @@ Definition needs_switch (thr : Z) (e : entry) (d : dir) : bool :=
 
 (** the edit as a basic directory would perform it, and whether the dynamic
     directory converts to a HAMT instead of performing it (only AddChild decides) *)
-Definition basic_edit (o : op) (d : dir) : dir * bool :=
+Definition basic_edit (fl : bool) (o : op) (d : dir) : dir * bool :=
   match o with
-  | OAdd e => add_child e d
-  | ORemove n => remove_child n d
+  | OAdd e => add_child fl e d
+  | ORemove n => remove_child fl n d
   | OReload => (d, true)
   end.
 Definition dyn_decide (thr : Z) (o : op) (d : dir) : bool :=
@@ -277,14 +285,14 @@ Definition no_obs : obs := (0, 0, 0, 0, true).
 (** the history ends with the first conversion *)
 (** every operation comes with the threshold in force when it is called
     (SetHAMTShardingSize may be called between operations) *)
-Fixpoint dyn_trace (d : dir) (ops : list (Z * op)) : list dobs :=
+Fixpoint dyn_trace (fl : bool) (d : dir) (ops : list (Z * op)) : list dobs :=
   match ops with
   | [] => []
   | (thr, o) :: r =>
-      let '(d', ok) := basic_edit o d in
+      let '(d', ok) := basic_edit fl o d in
       let w := blen (node_bytes d') in
       if dyn_decide thr o d then [(true, w, no_obs)]
-      else (false, w, observe d' ok) :: dyn_trace d' r
+      else (false, w, observe d' ok) :: dyn_trace fl d' r
   end.
 
 (** the documented rule, judged on exact block lengths: after an AddChild the
@@ -297,13 +305,13 @@ Definition decision_rule (thr : Z) (o : op) (sharded : bool) (wouldbe : Z) : boo
   | _ => negb sharded
   end.
 
-Fixpoint dyn_sound (d : dir) (ops : list (Z * op)) : bool :=
+Fixpoint dyn_sound (fl : bool) (d : dir) (ops : list (Z * op)) : bool :=
   match ops with
   | [] => true
   | (thr, o) :: r =>
-      let '(d', _) := basic_edit o d in
+      let '(d', _) := basic_edit fl o d in
       let sh := dyn_decide thr o d in
-      decision_rule thr o sh (blen (node_bytes d')) && (if sh then true else dyn_sound d' r)
+      decision_rule thr o sh (blen (node_bytes d')) && (if sh then true else dyn_sound fl d' r)
   end.
 
 Definition dobs_eqb (a b : dobs) : bool :=
@@ -345,7 +353,7 @@ Inductive case :=
 | CDyn (mode : Z) (t : gtime) (ops : list (Z * op)) (first : obs) (trace : list dobs).
 
 Definition model_trace (fl : bool) (mode : Z) (t : gtime) (ops : list op) : option (list obs) :=
-  let d0 := new_dir mode t in
+  let d0 := new_dir fl mode t in
   match run_obs fl d0 ops with
   | Some l => Some (observe d0 true :: l)
   | None => None
@@ -374,9 +382,10 @@ Definition check_case (c : case) : verdict :=
          (ls =? blen (emit [link_entry e])) &&
          (ds =? blen (emit [(1, WBytes (dir_data_bytes mode t))])))
   | CDyn mode t ops first trace =>
-      let d0 := new_dir mode t in
+      (* no reload in a dynamic history: both variants of the model coincide *)
+      let d0 := new_dir false mode t in
       let done := firstn (length trace) ops in     (* operations actually performed *)
       verdict_of
-        (obs_eqb (observe d0 true) first && dobs_list_eqb (dyn_trace d0 done) trace)
+        (obs_eqb (observe d0 true) first && dobs_list_eqb (dyn_trace false d0 done) trace)
         (obs_exact first && dyn_spec done trace)
   end.
